@@ -261,7 +261,7 @@ def serialize_leaf(tname, v):
 
 
 class Frag:
-    __slots__ = ("name", "cond", "text", "vars", "done", "has_defer")
+    __slots__ = ("name", "cond", "text", "vars", "done", "has_defer", "top")
 
     def __init__(self, name, cond):
         self.name = name
@@ -270,6 +270,7 @@ class Frag:
         self.vars = set()
         self.done = False
         self.has_defer = False
+        self.top = []  # (head, named type) of the object fields at the top of the fragment
 
 
 class DocGen:
@@ -292,21 +293,40 @@ class DocGen:
         self.ops = []  # (name, kind, text)
         self.labels_parent = {}  # label -> parent label or None / "?" when ambiguous
         self.field_parts = {}  # text of an object-field selection -> (head, [sub-selections])
+        self.field_heads = {}  # text of an object-field selection -> (head, named type)
         self.last_sels = []
         self.features = set()
 
     # --- input literals -------------------------------------------------------------
-    def lit(self, tstr, depth=0):
-        """(literal text, python value for use as variable value)."""
+    def nested_var(self, tstr, used):
+        """A variable at a list-item or input-field position of an argument literal: no default
+        exists for the position, so a nullable variable at a non-null position must carry a
+        default of its own (an explicit null for it is then a field error)."""
+        t = self.t
+        self.features.add("variable_inside_literal")
+        if tstr.endswith("!"):
+            if t.draw(2, "nv_nullable"):
+                return self.new_var(tstr[:-1], used, force_default=True)
+            return self.new_var(tstr, used, allow_omit=False)
+        return self.new_var(tstr + ("!" if t.draw(3, "nv_nn") == 2 else ""), used)
+
+    def lit(self, tstr, depth=0, used=None):
+        """(literal text, python value for use as variable value). With `used` (argument
+        literals only) list items and input fields may be variables."""
         t = self.t
         if tstr.endswith("!"):
-            return self.lit(tstr[:-1], depth)
+            return self.lit(tstr[:-1], depth, used)
         if tstr.startswith("["):
             inner = tstr[1:-1]
             if t.draw(6, "single") == 5:  # single value coerced to list
-                return self.lit(inner, depth)
+                return self.lit(inner, depth, used)
             n = t.draw(3, "llen")
-            items = [self.lit(inner, depth) for _ in range(n)]
+            items = []
+            for _ in range(n):
+                if used is not None and not inner.startswith("[") and t.draw(4, "item_var") == 3:
+                    items.append((self.nested_var(inner, used), None))
+                else:
+                    items.append(self.lit(inner, depth, used))
             return "[" + ", ".join(i[0] for i in items) + "]", [i[1] for i in items]
         if tstr == "Int":
             v = (0, 1, -5, 42, 2147483647, -2147483648)[t.draw(6, "int")]
@@ -333,7 +353,10 @@ class DocGen:
         if tstr == "Filter":
             parts, val = [], {}
             # tag is required
-            s, v = self.lit("String")
+            if used is not None and t.draw(4, "ftag_var") == 3:
+                s, v = self.nested_var("String!", used), None
+            else:
+                s, v = self.lit("String")
             parts.append(f"tag: {s}")
             val["tag"] = v
             if t.draw(3, "fmin") == 2:
@@ -341,16 +364,18 @@ class DocGen:
                 if k == 2:
                     parts.append("min: null")
                     val["min"] = None
+                elif used is not None and t.draw(3, "fmin_var") == 2:
+                    parts.append(f"min: {self.nested_var('Int', used)}")
                 else:
                     s, v = self.lit("Int")
                     parts.append(f"min: {s}")
                     val["min"] = v
             if t.draw(3, "fcol") == 2:
-                s, v = self.lit("[Color!]")
+                s, v = self.lit("[Color!]", depth, used)
                 parts.append(f"colors: {s}")
                 val["colors"] = v
             if depth < 2 and t.draw(4, "fsub") == 3:
-                s, v = self.lit("Filter", depth + 1)
+                s, v = self.lit("Filter", depth + 1, used)
                 parts.append(f"sub: {s}")
                 val["sub"] = v
             if t.draw(4, "forder") == 3:
@@ -358,14 +383,14 @@ class DocGen:
             return "{" + ", ".join(parts) + "}", val
         raise AssertionError(tstr)
 
-    def new_var(self, tstr, used, allow_omit=True):
+    def new_var(self, tstr, used, allow_omit=True, force_default=False):
         """Declare a fresh variable of the given type; returns '$name'."""
         t = self.t
         self.nvar += 1
         name = f"v{self.nvar}"
         nonnull = tstr.endswith("!")
         default = None
-        if t.draw(3, "vdef") == 2:
+        if t.draw(3, "vdef") == 2 or force_default:
             default = self.lit(tstr)[0]
         mode = t.draw(4, "vmode")  # 0 provided, 1 provided, 2 omitted, 3 null
         if mode == 2 and (default is not None or not nonnull) and allow_omit:
@@ -385,10 +410,10 @@ class DocGen:
         k = t.weighted((3, 4, 3, 1), "argk")  # omitted, literal, variable, null
         if k == 0:
             if nonnull and not has_default:
-                return self.lit(tstr)[0]
+                return self.lit(tstr, 0, used)[0]
             return None
         if k == 1:
-            return self.lit(tstr)[0]
+            return self.lit(tstr, 0, used)[0]
         if k == 2:
             self.features.add("arg_variable")
             if nonnull and not has_default:
@@ -476,6 +501,7 @@ class DocGen:
             head += " " + " ".join(directives)
         if parts is not None:
             self.field_parts[head + sub] = (head, parts)
+            self.field_heads[head + sub] = (head, named)
         return head + sub
 
     def skip_include(self, used):
@@ -547,6 +573,7 @@ class DocGen:
         fields = self.spec.members[tname]
         n = 1 + t.weighted((3, 4, 3, 2), "nsel")
         sels = []
+        heads_here = []  # object fields selected so far in this set (directly / via a spread)
         for _ in range(n):
             if self.budget <= 0 and sels:
                 break
@@ -560,6 +587,16 @@ class DocGen:
             if root_kind == "mutation":
                 w_spread = 0
             k = t.weighted((w_field, w_tn, w_inline, w_spread), "selkind")
+            if (k == 0 and heads_here and can_nest and root_kind != "subscription"
+                    and t.draw(6, "rehead") == 5):
+                # the same response key once more (same name, alias, arguments, directives) with
+                # another sub-selection: the two field nodes must be merged - also when the
+                # first one came in through a fragment spread that is used elsewhere as well
+                head, named_ = heads_here[t.draw(len(heads_here), "rehead_pick")]
+                self.budget -= 1
+                sels.append(head + " " + self.selection_set(named_, depth + 1, used))
+                self.features.add("merged_duplicate_field")
+                continue
             if k == 0 and fields:
                 choices = fields
                 if depth >= self.max_depth:
@@ -570,6 +607,9 @@ class DocGen:
                         continue
                 fname = choices[t.draw(len(choices), "fname")]
                 sels.append(self.field_sel(tname, fname, depth, used, root_kind))
+                hd = self.field_heads.get(sels[-1])
+                if hd is not None and 'label: "' not in hd[0]:
+                    heads_here.append(hd)
             elif k == 1 or (k == 0 and not fields):
                 if root_kind == "subscription":
                     continue
@@ -605,6 +645,8 @@ class DocGen:
                     body = self.selection_set(cond, depth + 1, fused,
                                               {"defer_label": "?", "in_frag": 1})
                     frag.text = f"fragment {frag.name} on {cond} {body}"
+                    frag.top = [self.field_heads[x] for x in self.last_sels
+                                if x in self.field_heads]
                     frag.vars = fused
                     frag.done = True
                 used.update(frag.vars)
@@ -613,6 +655,17 @@ class DocGen:
                 dirs = [dtxt] if dtxt else []
                 dirs += self.skip_include(used)
                 sels.append(f"...{frag.name}" + (" " + " ".join(dirs) if dirs else ""))
+                if frag.cond == tname:
+                    tops = [h for h in frag.top if 'label: "' not in h[0]]
+                    heads_here.extend(tops)
+                    if tops and self.budget > 0 and t.draw(3, "rehead_spread") == 2:
+                        # right away: a field of the fragment selected directly as well, with
+                        # another sub-selection (the spread's node stays the first of the merged list)
+                        head, named_ = tops[t.draw(len(tops), "rehead_spread_pick")]
+                        self.budget -= 1
+                        sels.append(head + " " + self.selection_set(named_, depth + 1, used))
+                        self.features.add("merged_duplicate_field")
+                        self.features.add("fragment_field_reselected")
                 self.features.add("fragment_spread")
         if not sels:
             sels.append("__typename")
